@@ -251,6 +251,51 @@ def gen_problem(rng, with_objectives=False, allow_custom=True, custom_kinds=None
                 if rng.random() < 0.5:
                     os_.append(("EnforceGCContent", kw(target=0.5, window=8, boost=0.5, location=None)))
                 break
+    elif with_objectives and fam < 0.53:
+        # a frame without stop codons (either strand, any offset) and objectives that gain by the ONE
+        # mutation turning a codon into a stop: single-nucleotide windows cut the codon at every phase
+        st = rng.choice([1, -1, -1])
+        m = rng.choice([4, 5, 6, 8])
+        a = rng.choice([0, 1, 2, 3, 4])
+        body = []
+        sense = ["GCT", "GGA", "CTG", "AAC", "CCA", "GAT", "TTC", "ACG", "CAT", "AGC"]
+        plant = set(rng.sample(range(m), rng.choice([1, 2, 3])))
+        wants = []
+        for j in range(m):
+            if j in plant:
+                stop = rng.choice(["TAA", "TAG", "TGA"])
+                q = rng.randrange(3)
+                alt = rng.choice([c for c in "ACGT" if c != stop[q] and (stop[:q] + c + stop[q + 1:]) not in ("TAA", "TAG", "TGA")])
+                body.append(stop[:q] + alt + stop[q + 1:])
+                wants.append((j, q, stop[q]))
+            else:
+                body.append(rng.choice(sense))
+        gene = "".join(body)
+        seq = rdna(rng, a) + (gene if st == 1 else rcs(gene)) + rdna(rng, rng.choice([0, 2, 4, 7]))
+        os_ = []
+        for j, q, base in wants:
+            pos = a + 3 * j + q if st == 1 else a + 3 * m - 1 - (3 * j + q)
+            os_.append(("EnforceSequence", kw(location=(pos, pos + 1, 1), sequence=base if st == 1 else rcs(base),
+                                              boost=rng.choice([1.0, 2.0]))))
+        if rng.random() < 0.4:
+            os_.append(("EnforceGCContent", kw(target=rng.choice([0.25, 0.5]), window=8, boost=0.5, location=None)))
+        cs = [("AvoidStopCodons", kw(location=(a, a + 3 * m, st)))]
+        if rng.random() < 0.3:
+            cs.append(("AvoidPattern", kw(pattern=rng.choice(["GGTCTC", "AAAA"]), location=None)))
+    elif with_objectives and fam < 0.6:
+        # an objective anchored to the ORIGINAL sequence on a strict sub-segment (EnforceChanges /
+        # AvoidChanges as objectives) and a windowed objective whose breach windows straddle the borders
+        # of that segment: the local copies must keep comparing with the original nucleotides
+        n2 = len(seq)
+        a = rng.randint(3, max(3, n2 // 3))
+        b = rng.randint(min(n2 - 3, a + 8), n2 - 3) if a + 8 <= n2 - 3 else n2 - 3
+        anchor = rng.choice(["EnforceChanges", "EnforceChanges", "AvoidChanges"])
+        os_ = [(anchor, kw(boost=rng.choice([0.5, 1.0, 3.0]), location=(a, b, 0))),
+               ("EnforceGCContent", kw(target=rng.choice([0.5, 0.5, 0.25, 0.75]), window=rng.choice([4, 8, 8, 16]), boost=1.0,
+                                       location=rng.choice([None, (0, b - 2, 0), (a + 2, n2, 0)])))]
+        if rng.random() < 0.5:
+            os_.reverse()
+        cs = [c for c in cs if c[0] in ("AvoidPattern",)]
     return dict(seq=seq, constraints=tuple(cs), objectives=tuple(os_), cfg=gen_settings(rng),
                 np_seed=rng.randint(0, 10**6))
 
